@@ -894,6 +894,11 @@ class OrderWorld(BaseWorld):
             # (what an earlier network left behind in class-level state must not reach this one)
             return {'op': 'graph', 'spec': self._gen_graph(rngs.args, back_edges=0 if self.cyclic else
                                                            max(1, self.cfg['back_edges']))}
+        if self.cfg.get('persistent') and self.objs is not None and self.spec['edges'] and rngs.sched.random() < 0.12:
+            # mark a connection as a disjunction (twice, as two pieces of user code would), then take the mark back:
+            # the module-level registry must be as before
+            e = rngs.args.choice(self.spec['edges'])
+            return {'op': 'disjunction_roundtrip', 'edge': list(e), 'marks': rngs.args.choice([1, 2, 2, 3])}
         if self.cfg.get('persistent') and self.objs is not None and rngs.sched.random() < 0.45:
             r = rngs.args
             if r.random() < 0.7:
@@ -1027,6 +1032,25 @@ class OrderWorld(BaseWorld):
             self.stats['op:graph'] += 1
             self.stats['graphs_cyclic' if self.cyclic else 'graphs_acyclic'] += 1
             return {'cyclic': self.cyclic, 'sccs': len(self.scc_sets)}
+        if ev['op'] == 'disjunction_roundtrip':
+            if self.spec is None or self.objs is None or not self.cfg.get('persistent'):
+                return 'skip:pre'
+            if list(ev['edge']) not in [list(e) for e in self.spec['edges']]:
+                return 'skip:pre'
+            units, streams = self.objs
+            su, sp, du, dp = ev['edge']
+            s_ = units[su].outs[sp]
+            if not s_ or s_.sink is not units[du]:
+                return 'skip:pre'
+            n0 = len(nw.disjunctions)
+            for _ in range(int(ev['marks'])):
+                nw.mark_disjunction(s_)
+            nw.unmark_disjunction(s_)
+            self.stats['fault:disjunction_marked_and_unmarked'] += 1
+            if len(nw.disjunctions) != n0:
+                self.fail('disjunction-left-behind', f'marking a stream as a disjunction {ev["marks"]} time(s) and taking '
+                          f'the mark back left {len(nw.disjunctions) - n0} entry(ies) in the registry', {'event': ev})
+            return 'ok'
         if ev['op'] in ('swap', 'bad_slice'):
             if self.spec is None or self.objs is None or not self.cfg.get('persistent'):
                 return 'skip:pre'
@@ -1252,6 +1276,6 @@ class OrderWorld(BaseWorld):
     def shared_touch(self, ev):
         if ev['op'] == 'network':
             return (ev['perm'], ev['hash_seed'] & 0xff)
-        if ev['op'] in ('swap', 'bad_slice'):
-            return (ev['op'], ev.get('a'), ev.get('b'), ev.get('unit'))
+        if ev['op'] in ('swap', 'bad_slice', 'disjunction_roundtrip'):
+            return (ev['op'], ev.get('a'), ev.get('b'), ev.get('unit'), ev.get('marks'))
         return None
